@@ -196,6 +196,12 @@ def prove(ctx):
     ctx.cov["proof"] = {"module": mod, "build_ok": True, "theorems": names, "axioms_used": sorted(axioms_used),
                         "audit_problems": bad_axioms, "lake_s": round(time.time() - t, 1)}
     if ctx.tier == "thorough":
+        # non-vacuity: ErgoProofs/Witness.lean instantiates the property theorems on a concrete eleven-command history, a concrete line codec and
+        # concrete runs of the process model (their hypotheses are jointly satisfiable); it must still build against the regenerated tables
+        w = common.lake("ErgoProofs.Witness")
+        ctx.cov["proof"]["witness_build"] = "ok" if w.returncode == 0 else (w.stdout + w.stderr)[-600:]
+        if w.returncode != 0:
+            ctx.tie_broken("proof:non-vacuity witnesses (ErgoProofs.Witness)", (w.stdout + w.stderr)[-1500:])
         with common.Lock("lake.lock"):
             lc = common.run(["lake", "env", "leanchecker", mod], cwd=common.LEAN)
         ctx.cov["proof"]["leanchecker"] = "ok" if lc.returncode == 0 else (lc.stdout + lc.stderr)[-500:]
